@@ -219,7 +219,58 @@ class _Quiet:
         root.handlers, root.level = self._saved[0], self._saved[1]
 
 
-def analyse(label, t0, share, do_cuts, st: Stats, count=True):
+_RULE_FREE = {}
+
+
+def _rule_free(sub):
+    """True, or the printed form a fresh copy of `sub` rewrites to."""
+    k = A._spelling_key(sub)
+    hit = _RULE_FREE.get(k)
+    if hit is not None:
+        return hit
+    tr = follow(A.build(sub), cap=2000)
+    if tr.error is not None:
+        res = True if tr.error[0] == "OverflowError" else f"(exception {tr.error})"
+    elif A._spelling_key(tr.terms[-1]) == k:
+        res = True
+    else:
+        res = M.show(tr.terms[-1])[:200]
+    if len(_RULE_FREE) < 300000:
+        _RULE_FREE[k] = res
+    return res
+
+
+def gen2_problems(t0, share):
+    """Simplification results are ordinary expressions: building on the *returned object* and simplifying again must give
+    what a fresh structurally equal copy gives (a result that carries stale 'already reduced' marks would not)."""
+    out = []
+    g = A.outcome(lambda: A.build(t0, share)._normalize())
+    if g[0] != "expr":
+        return out
+    gobj = A.build(t0, share)._normalize()
+    y = M.V("y")
+    contexts = [("Multiply(g, g)", lambda o: sm_mul(o, o), M.Mul(g[1], g[1])),
+                ("Exponential(g)", lambda o: smx.Exponential(o), M.Exp(g[1])),
+                ("Add(g, y)", lambda o: smx.Add(o, smx.Variable("y")), M.Add(g[1], y)),
+                ("Divide(y, g)", lambda o: smx.Divide(smx.Variable("y"), o), M.Div(y, g[1]))]
+    for label, mk, term in contexts:
+        a = follow(mk(gobj), cap=3000)
+        b = follow(A.build(term), cap=3000)
+        if a.error or b.error or a.capped or b.capped:
+            continue
+        if A._spelling_key(a.terms[-1]) != A._spelling_key(b.terms[-1]):
+            out.append(("second generation", f"{label} over the simplification result g = {M.show(g[1])[:120]} reduces to "
+                                             f"{M.show(a.terms[-1])[:160]}, but a fresh structurally equal copy reduces to "
+                                             f"{M.show(b.terms[-1])[:160]}", None))
+            break
+    return out
+
+
+def sm_mul(a, b):
+    return smx.Multiply(a, b)
+
+
+def analyse(label, t0, share, do_cuts, st: Stats, count=True, do_gen2=False):
     """Explore the trace of one start term; returns a list of (kind, why, detail) problems for C08 and C11."""
     p08, p11 = [], []
     N = M.size(t0)
@@ -254,6 +305,22 @@ def analyse(label, t0, share, do_cuts, st: Stats, count=True):
                 st.inc("transitions", again.steps)
             if again.error is None and A._spelling_key(again.terms[-1]) != A._spelling_key(final_t):
                 p11.append(("not rule-free", f"normal form {M.show(final_t)} rewrites further to {M.show(again.terms[-1])}", None))
+            # every sub-expression of the normal form, rebuilt on its own from fresh objects, must not rewrite further
+            for sub in M.subterms(final_t):
+                if sub[0] in ("var", "const"):
+                    continue
+                ok = _rule_free(sub)
+                if count:
+                    st.inc("subterm_rule_free_checks")
+                if ok is not True:
+                    p11.append(("not rule-free", f"sub-expression {M.show(sub)} of the normal form {M.show(final_t)[:200]} still rewrites "
+                                                 f"to {ok}", None))
+                    break
+            if do_gen2 and not p11:
+                g2 = gen2_problems(t0, share)
+                if count:
+                    st.inc("second_generation_checks")
+                p11.extend(g2)
             growth = max(M.size(x) for x in tr.terms)
             if count:
                 st.mx("max_intermediate_size_over_N", growth / N)
@@ -348,7 +415,8 @@ def term_case(label, t0, share, kind, why, detail):
 
 def work_item(pid, item, st: Stats):
     label, t0, share, do_cuts = item
-    p08, p11, tr = analyse(label, t0, share, do_cuts, st)
+    gen2 = pid == "C11" and M.size(t0) <= 6 and bool(M.variables(t0)) and label.split(":")[0] in ("ENUM", "SKEL", "DERIV", "REPLAY")
+    p08, p11, tr = analyse(label, t0, share, do_cuts and pid == "C08", st, do_gen2=gen2)
     probs = p08 if pid == "C08" else p11
     if not probs:
         return
